@@ -8,6 +8,34 @@ import traceback
 from vf import core
 
 
+def replay(mod, prop, v):
+    """re-run one recorded violation on the plain API of the current tree; exit 1 if it reproduces"""
+    from vf import pipe
+
+    core.silence_logging()
+    r = v.get("replay", {})
+    if hasattr(mod, "replay_file"):
+        rep, detail = mod.replay_file(v)
+    elif isinstance(r, dict) and "case" in r:
+        case = r["case"]
+        case = tuple(tuple(x) if isinstance(x, list) and prop in ("C07",) and False else x for x in case) if isinstance(case, list) else case
+        hname = "harness_w" if hasattr(mod, "harness_w") else "harness"
+        model = dict(r.get("model") or {})
+        info = r.get("info") or {}
+        if isinstance(info, dict) and isinstance(info.get("_replay"), dict):
+            model.update(info["_replay"])
+        if isinstance(info, dict) and "defined" in info:
+            model["_bits"] = {sc: sc in info["defined"] for sc in ("data", "builtins", "locals", "globals", "extra", "none_winner")}
+        rep, detail = pipe.replay_concrete(getattr(mod, hname), case, model, v.get("label"))
+    else:
+        print(f"no replay recipe in this file for {prop}")
+        return core.EXIT_INCONCLUSIVE
+    print(("REPRODUCED: " if rep else "not reproduced: ") + str(detail))
+    if rep:
+        print(f"VIOLATION property={prop} replay=(this file)")
+    return core.EXIT_VIOLATION if rep else core.EXIT_OK
+
+
 def main():
     ap = argparse.ArgumentParser()
     ap.add_argument("prop")
@@ -21,8 +49,7 @@ def main():
     if a.replay:
         with open(a.replay) as f:
             v = json.load(f)
-        rc = mod.replay_file(v)
-        sys.exit(rc)
+        sys.exit(replay(mod, a.prop, v))
     try:
         rc = mod.run(a.tier, seed)
     except Exception:
